@@ -212,6 +212,60 @@ def rule_ml(repo: Repo, rep: Report) -> int:
     return n + 1
 
 
+def bm_evaluated(alg: FuncInfo):
+    """Run berlekamp_massey_algorithm on the syndromes of every error pattern of weight <= t for t = 1, 2, 3 over GF(16)
+    (n = 15; all patterns of weight 1 and 2, a spread of weight 3, and patterns with a vanishing intermediate discrepancy):
+    the returned locator must be prod (1 + alpha^p x), coefficient by coefficient, lowest degree first."""
+    from itertools import combinations
+
+    from ..constfold import PySeq, Unfoldable
+    from ..frag import FragRaise, FragReturn, run_fragment
+    from .. import gf2
+
+    field = gf2.FieldModel(4, 0b10011)
+    alpha = field(2)
+    runs = 0
+    for t_ in (1, 2, 3):
+        supports = [()] + [(p,) for p in range(15)]
+        if t_ >= 2:
+            supports += list(combinations(range(15), 2))
+        if t_ >= 3:
+            supports += [c for i, c in enumerate(combinations(range(15), 3)) if i % 5 == 0]
+        for supp in supports:
+            if len(supp) > t_:
+                continue
+            synd = []
+            for i in range(1, 2 * t_ + 1):
+                acc = field.zero
+                for j in supp:
+                    acc = acc + (alpha ** (i * j))
+                synd.append(acc)
+            want = [field.one]
+            for p_ in supp:
+                loc = alpha**p_
+                nxt = [field.zero] * (len(want) + 1)
+                for i, c in enumerate(want):
+                    nxt[i] = nxt[i] + c
+                    nxt[i + 1] = nxt[i + 1] + c * loc
+                want = nxt
+            try:
+                run_fragment(alg.body, {"syndrome": PySeq(synd)}, {"self.field": field, "self.t": t_}, max_steps=400000)
+                return UNDECIDED, "no value returned"
+            except FragReturn as r:
+                got = r.value
+            except (Unfoldable, FragRaise, TypeError, IndexError, KeyError, ZeroDivisionError) as exc:
+                return UNDECIDED, f"not evaluable ({exc})"
+            if not (isinstance(got, list) and all(isinstance(x, gf2.FieldElem) for x in got)):
+                return UNDECIDED, f"result {str(got)[:40]} is not a list of field elements"
+            gv = [x.value for x in got]
+            while len(gv) > 1 and gv[-1] == 0:
+                gv.pop()
+            if gv != [x.value for x in want]:
+                return VIOLATION, f"for t = {t_} and errors at positions {list(supp)} (n = 15, GF(16)) the synthesised locator is {gv}; the error locator prod (1 + alpha^p x) is {[x.value for x in want]}: its roots are not the error positions, so wrong bits are flipped for a pattern of weight <= t"
+            runs += 1
+    return OK, f"locator = prod (1 + alpha^p x) for {runs} error patterns of weight <= t, t = 1, 2, 3"
+
+
 def syndromes_evaluated(rep: Report, sp: FuncInfo) -> int:
     """S_i = r(alpha^i), i = 1..2t: the syndrome routine is run (own GF(16) arithmetic, model objects for field and
     elements) for t = 7 on received words of weight 1..3 and compared with the definition - every one of the 2t values,
@@ -327,6 +381,12 @@ def rule_bm(repo: Repo, rep: Report) -> int:
     rep.expect(len(zero) == 1, "BM", cl, "zero syndrome: the word is returned uncorrected", "codewords are not modified", "zero-syndrome shortcut changed")
     n += 2
     alg = repo.method(ci, "berlekamp_massey_algorithm")
+    est_, ed_ = bm_evaluated(alg)
+    if est_ in (OK, VIOLATION):
+        # the synthesis is a pure function of the 2t syndromes over a finite field: decided by running it (own GF(16)
+        # arithmetic) - this supersedes the recognition of its individual statements
+        rep.add("BM", alg, "Berlekamp-Massey synthesis evaluated over GF(16)", est_, ed_, node=alg.node)
+        return n + 1
     body = statement_texts(alg)
     need = ["coefficient = discrepancy[j] * inv_discrepancy_k", "sigma[j + 1] = [fst[i] + snd[i] * coefficient for i in range(degree[j + 1] + 1)]", "degree[j + 1] = max(degree[j], degree[k] + j - k)", "discrepancy[j + 1] += sigma[j + 1][i + 1] * syndrome[j - i]", "inv_discrepancy_k = discrepancy[k].inverse()"]
     for t in need:
